@@ -57,6 +57,38 @@ def gen_c20_vectors(ctx):
             'info': {'module': 'MBT_C20', 'programs_generated_by_tlc': n, 'laws_checked_on_states': r['distinct']}}
 
 
+def gen_util_behaviours(ctx):
+    """Whole-system MBT: TLC simulates Util.tla (the composition of the five package machines) and
+    prints behaviours through the history variable; a seeded sample is replayed on the real code by
+    the util driver and the recorded events are validated by Trace.tla like any other trace."""
+    import os as _o, random as _r, re as _re
+    n, take, depth = (300, 500, 10) if ctx['tier'] == 'quick' else (4000, 6000, 14)
+    mod = _o.path.join(vf.SPEC, 'mc', 'MC_Util.tla')
+    cfg = _o.path.join(vf.SPEC, 'mc', 'MC_Util_sim.cfg')
+    r = vf.tlc(mod, cfg, ctx['scratch'], env={'UTIL_DEPTH': str(depth)}, workers=1, heap='8g', timeout=3600,
+               extra=['-simulate', 'num=%d' % n, '-depth', str(depth + 1), '-seed', str(ctx['seed'])])
+    if 'Error' in r['out'] and 'BEHAVIOUR' not in r['out']:
+        raise vf.HarnessError('Util simulation failed:\n' + vf.tail(r['out'], 30))
+    behs = sorted(set(_re.findall(r'<<"BEHAVIOUR", "(.*)">>', r['out'])))
+    if not behs:
+        raise vf.HarnessError('Util simulation produced no behaviour:\n' + vf.tail(r['out'], 30))
+    _r.Random(ctx['seed']).shuffle(behs)
+    path = _o.path.join(ctx['scratch'], 'util-behaviours.ndjson')
+    with open(path, 'w') as f:
+        for b in behs[:take]:
+            f.write(b.replace('\\"', '"') + '\n')
+    ctx['env']['VERIF_BEH'] = path
+    vf.log('[mbt] MC_Util: TLC simulated %d traces of depth %d, %d distinct behaviours exported, %d replayed'
+           % (n, depth, len(behs), min(take, len(behs))))
+    return {'states': 0, 'transitions': 0,
+            'info': {'module': 'Util (MC_Util_sim.cfg)', 'simulated_traces': n, 'depth': depth, 'distinct_behaviours': len(behs),
+                     'replayed': min(take, len(behs))}}
+
+
+UTIL_MC = {'module': 'MC_Util', 'what': 'composition of the five package machines, all interleavings to a small depth: Isolation, KeepOnFail, TypeOK',
+           'tiers': {'quick': {'env': {'UTIL_DEPTH': '3'}}, 'thorough': {'env': {'UTIL_DEPTH': '4'}}}}
+
+
 PLANS = {
     'C01': {
         'mc': [{'module': 'MC_C01', 'what': '18 boundary years x every day x {ext,basic} x 8 limits: Parse(Fmt(d)) = d, canonical shape, Ordinal counts days'}],
@@ -210,16 +242,18 @@ PLANS = {
         'assumptions': COMMON_ASSUMPTIONS,
     },
     'C17': {
-        'drivers': [{'name': 'c17', 'shards': 8}],
-        'mc': [{'module': 'MC_C17', 'what': 'generic receiver machine: 3 parsable / 3 unparsable inputs, histories to depth 5: a failing call never changes the receiver, scribbling the input never changes earlier results'}],
+        'pre': [gen_util_behaviours],
+        'drivers': [{'name': 'c17', 'shards': 8}, {'name': 'util', 'shards': 4, 'per': 6000}],
+        'mc': [UTIL_MC, {'module': 'MC_C17', 'what': 'generic receiver machine: 3 parsable / 3 unparsable inputs, histories to depth 5: a failing call never changes the receiver, scribbling the input never changes earlier results'}],
         'codes': ['C17.'],
         'rule': 'recv.call: seeded histories (12 steps) of UnmarshalText/JSON/Binary/Scan per type with valid, near-valid and over-long inputs, receiver logged before/after, input snapshot and scribble; '
                 'twin: every parser entry point on string, []byte, named string, named []byte with equal values and equal error messages',
         'assumptions': COMMON_ASSUMPTIONS,
     },
     'C18': {
-        'drivers': [{'name': 'c18', 'shards': 8, 'per': 8000}],
-        'mc': [{'module': 'MC_C18', 'what': 'limit gate shared by the five parsers: maxLen x input length grid'}],
+        'pre': [gen_util_behaviours],
+        'drivers': [{'name': 'c18', 'shards': 8, 'per': 8000}, {'name': 'util', 'shards': 4, 'per': 6000}],
+        'mc': [UTIL_MC, {'module': 'MC_C18', 'what': 'limit gate shared by the five parsers: maxLen x input length grid'}],
         'codes': ['C18.'],
         'rule': 'every parsing / validating / comparing entry point of the five packages on seeded random bytes, fragment soups (invalid UTF-8, multi-byte runes, NUL, BOM), long runs and mutated valid texts, '
                 'under all rule subsets; limit matrix MaxInputLength in {0,1,default,default+1} x lengths {0,1,limit-1,limit,limit+1,limit+2,10x}; demands: no panic, too-long <=> over the limit, message does not echo the input',
